@@ -16,7 +16,10 @@ def _pandas(vec: Dict[str, Any]):
     # index labelling (FrameRows.tla LabelOf): decreasing labels, so that a position is never a label
     ixk = vec.get("ix", "unique")
     labels = [100 - ((i + 2) // 2 if ixk in ("dup", "multidup") else i + 11) for i in range(n)]
-    index = pd.MultiIndex.from_arrays([labels, [0] * n], names=["p", "q"]) if ixk.startswith("multi") else pd.Index(labels)
+    if ixk == "multits":
+        index = pd.MultiIndex.from_arrays([[pd.Timestamp("2020-01-01") + pd.Timedelta(days=x) for x in labels], [0] * n], names=["p", "q"])
+    else:
+        index = pd.MultiIndex.from_arrays([labels, [0] * n], names=["p", "q"]) if ixk.startswith("multi") else pd.Index(labels)
     df = pd.DataFrame({"a": [None if x == NULL else float(x) for x in vec["a"]], "b": [int(x) for x in vec["b"]],
                        "rid": list(range(n))}, index=index)
     df["a"] = df["a"].astype("float64")
